@@ -55,6 +55,7 @@ fn alphabet(thorough: bool) -> Alphabet {
             advance: vec![1, 2, 41],
             rewind: vec![1, 3],
             clear_b: true,
+            unlock_all: true,
             proposals: vec![
                 lock_req(Entry::Transfer, 30_000, Rcpt::Sapling, Conf::Min, LockPol::Exclude, Pools::All, (0, 0)),
                 lock_req(Entry::Transfer, 100_000, Rcpt::Sapling, Conf::Min, LockPol::Exclude, Pools::All, (1, 50)),
@@ -70,6 +71,7 @@ fn alphabet(thorough: bool) -> Alphabet {
             advance: vec![1, 41],
             rewind: vec![1],
             clear_b: false,
+            unlock_all: false,
             proposals: vec![
                 lock_req(Entry::Transfer, 30_000, Rcpt::Sapling, Conf::Min, LockPol::Exclude, Pools::All, (0, 0)),
                 lock_req(Entry::Transfer, 100_000, Rcpt::Sapling, Conf::Min, LockPol::PreferLockedX, Pools::All, (1, 50)),
@@ -97,13 +99,13 @@ fn searches(tier: Tier) -> (Vec<Search>, f64) {
     let cap = |d: usize| depth_env.map(|e| e.min(d)).unwrap_or(d);
     match tier {
         Tier::Quick => (
-            vec![Search { name: "quick", thorough_alphabet: false, depth_by_start: [cap(3), cap(2), cap(2)], level_at_depth: |s, d| if d <= 1 || (s == 0 && d <= 2) { 1 } else { 0 }, wall_share: 1.0 }],
+            vec![Search { name: "quick", thorough_alphabet: false, depth_by_start: [cap(3), cap(2), cap(2)], level_at_depth: |_, d| if d <= 1 { 1 } else { 0 }, wall_share: 1.0 }],
             wall_env.unwrap_or(48.0),
         ),
         Tier::Thorough => (
             vec![
-                Search { name: "wide", thorough_alphabet: true, depth_by_start: [cap(2), cap(2), cap(2)], level_at_depth: |_, d| if d <= 1 { 2 } else { 1 }, wall_share: 0.5 },
-                Search { name: "deep", thorough_alphabet: false, depth_by_start: [cap(4), cap(3), cap(3)], level_at_depth: |_, d| if d <= 2 { 1 } else { 0 }, wall_share: 1.0 },
+                Search { name: "wide", thorough_alphabet: true, depth_by_start: [cap(2), cap(2), cap(2)], level_at_depth: |_, d| if d <= 1 { 2 } else { 0 }, wall_share: 0.5 },
+                Search { name: "deep", thorough_alphabet: false, depth_by_start: [cap(4), cap(4), cap(4)], level_at_depth: |_, d| if d <= 2 { 1 } else { 0 }, wall_share: 1.0 },
             ],
             wall_env.unwrap_or(660.0),
         ),
@@ -568,7 +570,7 @@ fn search(sh: &Shared, sp: &Search, deadline_s: f64, tot: &mut Totals) -> (Value
     tot.evaluated_states += evaluated_states.load(Ordering::Relaxed);
     let desc = json!({
         "alphabet": {"locks": al.locks.iter().map(|(o, s, far)| format!("{}:{}:{}", ["X","Y"][*o as usize], model::LOCK_SETS[*s].join("+"), if *far {"tip+50"} else {"tip+1"})).collect::<Vec<_>>(),
-                     "unlock": "every (owner in {X,Y}, note holding a lock row)", "clear_locks": if al.clear_b { "A, B" } else { "A" },
+                     "unlock": if al.unlock_all { "every (owner in {X,Y}, note holding a lock row)" } else { "every (owner in {X,Y}, one representative note per group of notes locked together)" }, "clear_locks": if al.clear_b { "A, B" } else { "A" },
                      "store_pending": "P0, P1 (when their inputs are live and build target <= target height <= expiry)", "mine": "stored un-mined pending transactions",
                      "advance": al.advance, "rewind_back": al.rewind, "fill_gap": true, "lock_taking_proposals": al.proposals.iter().map(|r| r.key()).collect::<Vec<_>>()},
         "depth_by_start": {"full": sp.depth_by_start[0], "gap": sp.depth_by_start[1], "short": sp.depth_by_start[2]},
@@ -616,6 +618,7 @@ pub fn run(args: &Args) -> i32 {
     run.assume("pending transactions are real Sapling-only transactions built once by create_proposed_transactions with the sapling mock provers and re-injected through store_transactions_to_be_sent; they spend no Orchard/Ironwood/transparent inputs (DESIGN.md stated bound)");
     run.assume("transparent coins (two of account A, one of account B) are reported to the wallet in the start states through put_received_transparent_utxo and are never spent; a rewind below a coin's height un-mines it in the wallet and nothing re-mines it; coins need 0 confirmations when the policy allows zero-conf shielding, else `untrusted` confirmations (ConfirmationsPolicy docs); propose_shielding_coinbase, coinbase maturity and ephemeral (TEX) coins are not covered");
     run.assume("the reference upper bound of spendable value counts every unspent, confirmed, not pending-spent, unlocked-or-overridable note of the permitted pools including dust; minimum fee = 10_000 (ZIP 317)");
+    run.assume("witness verdicts are memoised across states by the byte-identical content of the pool's tree tables (shards, cap, checkpoints, removed marks, retained checkpoints) plus the chain description: witness_at_checkpoint_id is a deterministic function of those tables, the position and the checkpoint id");
     run.assume("the anchor of a step must not be above target height minus the policy's trusted confirmations (ConfirmationsPolicy::anchor_height documentation); a lower (bucketed, ZIP 318) anchor is accepted");
 
     let mut tot = Totals::default();
@@ -636,6 +639,8 @@ pub fn run(args: &Args) -> i32 {
     if std::env::var("VERIF_PROGRESS").is_ok() {
         let c = oracle::CALLS.load(Ordering::Relaxed).max(1);
         eprintln!("proposal calls {c}: {:.2} ms/call inside the wallet, {:.2} ms/request overall", oracle::CALL_NS.load(Ordering::Relaxed) as f64 / 1e6 / c as f64, oracle::EVAL_NS.load(Ordering::Relaxed) as f64 / 1e6 / c as f64);
+        let n = oracle::WIT_N.load(Ordering::Relaxed).max(1);
+        eprintln!("witness computations {n}: {:.2} ms each", oracle::WIT_NS.load(Ordering::Relaxed) as f64 / 1e6 / n as f64);
     }
     run.add_graph(tot.states, tot.transitions, tot.transitions + tot.evals);
     run.add_evaluations(tot.evals + tot.transitions);
@@ -690,6 +695,8 @@ pub fn run(args: &Args) -> i32 {
         "ok:spent-through-overridable-lock",
         "ok:steps=2",
         "ok:anchor-below-policy-depth",
+        "ok:input-mined-exactly-at-bucketed-anchor",
+        "ok:input-mined-exactly-at-anchor",
         "op:lock:ok",
         "op:store:ok",
         "op:advance",
